@@ -325,12 +325,20 @@ class Case:
     def akey(self):
         return (tuple(self.lines), self.inst, self.fname)
 
+    def fkey(self):
+        return (self.fname, self.inst, tuple(self.lines))
+
     def spellings(self):
         return [SPELLINGS[c][k] for c, k in zip(self.lines, self.spell)]
 
     def describe(self):
         return {"classes": list(self.lines), "inst": self.inst, "file": self.stem + ".desktop",
                 "lines": [repr(sp_line(s))[:120] for s in self.spellings()]}
+
+
+def gkey(group):
+    """Abstract identity of one install call: the shipped files in glob (= processing) order."""
+    return tuple(c.fkey() for c in group)
 
 
 def resolve(b, facts, inst):
@@ -447,11 +455,81 @@ def build_cases(ctx, rng):
     return cases, n_single
 
 
+MULTI_STEMS = ["m1", "m2", "m3", "m4"]       # glob order = list order; all of the "other" file-name variant
+
+
+def build_groups(ctx, rng, next_id):
+    """Install calls with SEVERAL shipped files (one snap, sometimes both snaps): every file is sanitized before
+    any is written, so results that share storage (or any other cross-file state) show up in what is installed.
+    Lengths are mixed: earlier file longer than / equal to / shorter than the later ones."""
+    classes = sorted(SPELLINGS)
+    groups = []
+
+    def mk(lines, spell, inst, stem, fname="other", eol=b"\n", finalnl=True):
+        c = Case("c%d" % next_id[0], list(lines), list(spell), inst, fname, stem, eol, finalnl)
+        next_id[0] += 1
+        return c
+
+    def first(cls):
+        return [0] * len(cls)
+
+    # long / medium / short / empty-output templates (first spellings unless given)
+    T = [
+        (["HdrEntry", "KeyLoc", "ExecOwnArgsApp", "IconVarOk"], [0, 6, 1, 0]),     # 60 KB Comment= line
+        (["HdrEntry", "KeyLoc", "KeyLoc", "ExecOwnExactSnap"], [0, 5, 2, 0]),      # Name=Exec=/bin/sh as a VALUE
+        (["HdrEntry", "KeyCtl", "KeyVar", "ExecOwnArgsSnap", "IconSnapName"], [0, 0, 0, 2, 0]),
+        (["HdrEntry", "KeyPlain", "ExecOwnExactApp"], [0, 0, 0]),
+        (["KeyPlain"], [1]),
+        (["HdrEntry"], [0]),
+        (["Blank"], [0]),
+        (["ExecAbs", "KeyOther", "IconAbsOutside"], [0, 0, 0]),                     # everything dropped: empty output
+        (["KeyLoc", "TooLong", "HdrEntry"], [0, 0, 0]),                             # truncated by the scanner
+        (["HdrAction", "KeyLocOk", "IconTheme", "Comment"], [0, 0, 0, 3]),
+    ]
+    for inst in (False, True):
+        for a in T:
+            for b in T:
+                groups.append([mk(a[0], a[1], inst, "m1"), mk(b[0], b[1], inst, "m2")])
+    for i, a in enumerate(T):                   # three files, long -> short and short -> long, and the app-named file
+        b, c = T[(i + 3) % len(T)], T[(i + 5) % len(T)]
+        groups.append([mk(a[0], a[1], False, "app1", "app"), mk(b[0], b[1], False, "m2"), mk(c[0], c[1], False, "m3")])
+        groups.append([mk(c[0], c[1], True, "m1"), mk(b[0], b[1], True, "m2"), mk(a[0], a[1], True, "m3")])
+        # both snaps in one call
+        groups.append([mk(a[0], a[1], False, "m1"), mk(b[0], b[1], True, "m1"), mk(c[0], c[1], True, "m2")])
+    # random calls of 2..4 files
+    for _ in range(ctx.pick(500, 12000)):
+        k = rng.choice([2, 2, 3, 3, 4])
+        inst = rng.random() < 0.5
+        files = []
+        for _f in range(k):
+            n = rng.randint(0, 6)
+            ls = [rng.choice(classes) for _ in range(n)]
+            if ls and rng.random() < 0.6:
+                ls[0] = "HdrEntry"
+            files.append((ls, [pick_spelling(rng, c) for c in ls]))
+        r = rng.random()
+        size = lambda f: sum(len(sp_line(SPELLINGS[c][q])) + 1 for c, q in zip(f[0], f[1]))
+        if r < 0.4:
+            files.sort(key=size, reverse=True)      # earlier longer than later
+        elif r < 0.55:
+            files.sort(key=size)
+        elif r < 0.7:
+            files[1] = (list(files[0][0]), list(files[0][1]))      # equal
+        both = rng.random() < 0.1
+        g = []
+        for j, (ls, sp) in enumerate(files):
+            fi = (not inst) if (both and j == len(files) - 1) else inst
+            g.append(mk(ls, sp, fi, MULTI_STEMS[j], "other", rng.choice([b"\n", b"\n", b"\r\n"]), rng.random() < 0.8))
+        groups.append(g)
+    return groups
+
+
 # ----------------------------------------------------------------------------------------------------------
 # TLC
 
 def tlc_table(ctx, abstract_cases, name, shards=1):
-    """Evaluate Sanitize + the clauses in TLC on the given abstract cases -> (list of results, Attr table)."""
+    """Evaluate Install (Sanitize per shipped file) + the clauses in TLC on the given abstract install calls
+    (tuples of (fname, inst, lines)) -> (list of per-call lists of per-file results, Attr table)."""
     if shards > 1 and len(abstract_cases) > 8000:
         import concurrent.futures
         import threading
@@ -471,7 +549,8 @@ def tlc_table(ctx, abstract_cases, name, shards=1):
         return [r for o in outs for r in o[0]], outs[0][1]
     d = ctx.subdir("table_" + name)
     inp, outp, attrp = os.path.join(d, "cases.ndjson"), os.path.join(d, "out.json"), os.path.join(d, "attr.json")
-    common.write_ndjson(inp, [{"lines": list(l), "inst": i, "fname": f} for (l, i, f) in abstract_cases])
+    common.write_ndjson(inp, [{"files": [{"fname": f, "inst": i, "lines": list(l)} for (f, i, l) in call]}
+                              for call in abstract_cases])
     res = tlc.run(ctx, "TraceDesktopSanitize", "TraceDesktopSanitize.cfg", workers=1, timeout=1800,
                   env={"VERIF_TRACE": inp, "VERIF_OUT": outp, "VERIF_ATTR": attrp}, name="tlc_table_" + name,
                   heap="8g")
@@ -513,13 +592,14 @@ def check_spellings(attr, facts):
     return n
 
 
-def run_driver(ctx, tb, cases, facts, root, name):
+def run_driver(ctx, tb, groups, facts, root, name):
     d = ctx.subdir("drv_" + name)
     inp, outp = os.path.join(d, "in.ndjson"), os.path.join(d, "out.ndjson")
     with open(inp, "w") as f:
-        for cs in cases:
-            f.write(json.dumps({"case": cs.id, "inst": cs.inst, "fname": cs.stem,
-                                "content_b64": base64.b64encode(content_of(cs, facts)).decode()}) + "\n")
+        for g in groups:
+            f.write(json.dumps({"case": g[0].id, "files": [
+                {"inst": cs.inst, "fname": cs.stem,
+                 "content_b64": base64.b64encode(content_of(cs, facts)).decode()} for cs in g]}) + "\n")
     rc, o = goharness.run_test_bin(ctx, tb, "^Test$", args=["-check.f", "verifDesktopSuite"],
                                    env={"VERIF_IN": inp, "VERIF_OUT": outp, "VERIF_ROOT": root}, timeout=3000)
     goharness.check_driver(rc, o, "desktop driver")
@@ -532,26 +612,37 @@ def run_driver(ctx, tb, cases, facts, root, name):
             raise InfraError("snap facts differ from what the check assumes for %s: real %r, assumed %r" % (
                 k, real_facts[k], facts[k]))
     rows = rows[1:]
-    if [r["case"] for r in rows] != [c.id for c in cases]:
-        raise InfraError("desktop driver returned %d rows for %d cases" % (len(rows), len(cases)))
+    if [r["case"] for r in rows] != [g[0].id for g in groups]:
+        raise InfraError("desktop driver returned %d rows for %d install calls" % (len(rows), len(groups)))
     return rows
 
 
 CORRUPT = os.environ.get("VERIF_C27_CORRUPT", "")     # selftest of the binding: corrupt one recorded output
 
 
-def judge(cases, rows, results, facts):
-    """-> (violations by key, deviations, stats)"""
+def judge(groups, rows, results, facts):
+    """-> (violations by key, deviations, stats). One row per install call; every installed file is judged."""
     viol, deviations = {}, []
     stats = {"kept_classes": set(), "dropped_classes": set(), "rewritten": 0, "tagged": 0, "truncated": 0,
              "outputs": set()}
-    for idx, (cs, row) in enumerate(zip(cases, rows)):
+    flat = []
+    for g, row in zip(groups, rows):
+        allfiles = {k: base64.b64decode(v) for k, v in row["files"].items()}
+        names = [installed_name(cs, facts) for cs in g]
+        if len(set(names)) != len(names):
+            raise InfraError("install call with colliding file names: %r" % names)
+        specs = results[gkey(g)]
+        unexpected = {k: v for k, v in allfiles.items() if k not in names}
+        for pos, cs in enumerate(g):
+            mine = {names[pos]: allfiles[names[pos]]} if names[pos] in allfiles else {}
+            if pos == 0:
+                mine.update(unexpected)
+            flat.append((cs, row, specs[pos], mine, len(g), [c.stem + ".desktop" for c in g]))
+    for idx, (cs, row, spec, files, gsize, gnames) in enumerate(flat):
         vf = facts[variant_name(cs.inst)]
         name = installed_name(cs, facts)
         installed_path = (facts["desktop_dir"] + "/" + name).encode()
-        spec = results[cs.akey()]
         exp, owners = expected_bytes(cs, _norm_out(spec["out"]), facts)
-        files = {k: base64.b64decode(v) for k, v in row["files"].items()}
         if CORRUPT and idx == 7 and name in files:
             if CORRUPT == "exec":
                 files[name] = files[name] + b"Exec=/bin/sh\n"
@@ -588,6 +679,10 @@ def judge(cases, rows, results, facts):
             elif ln in cand:
                 culprit = cand[ln][0]
                 what = "input line %r" % sp_line(cand[ln][1])[:100]
+            elif gsize > 1 and real != exp:
+                culprit = "multi-file-install"
+                what = ("installed %s is not the sanitizer's output for that shipped file (one call installing %s)"
+                        % (fn, gnames))
             else:
                 culprit = "line:" + ln[:80].replace(root, b"<ROOT>").decode("latin-1")
                 what = "output differs from the spec as well"
@@ -595,7 +690,7 @@ def judge(cases, rows, results, facts):
             ent = viol.setdefault(key, {"n": 0, "first": None})
             ent["n"] += 1
             if ent["first"] is None:
-                ent["first"] = {"case": cs.describe(), "what": what, "installed_file": fn,
+                ent["first"] = {"case": cs.describe(), "shipped_together": gnames, "what": what, "installed_file": fn,
                                 "violating_output_line": repr(ln[:300]), "clause": cl,
                                 "real_output": repr(files[fn][:1500]),
                                 "input_b64": base64.b64encode(content_of(cs, facts)[:4000]).decode()}
@@ -614,9 +709,10 @@ def judge(cases, rows, results, facts):
         if real == exp and predicted != seen:
             problems.append("spec predicts violated clauses %s, independent checker sees %s" % (predicted, seen))
         if problems and not clause_hits:
-            deviations.append({"case": cs.describe(), "problems": problems})
+            deviations.append({"case": cs.describe(), "shipped_together": gnames, "problems": problems})
         elif problems and real != exp:
-            deviations.append({"case": cs.describe(), "problems": problems, "also_violates": True})
+            deviations.append({"case": cs.describe(), "shipped_together": gnames, "problems": problems,
+                               "also_violates": True})
         # stats (vacuity)
         if real is not None:
             stats["outputs"].add(real if len(real) < 200 else hash(real))
@@ -637,22 +733,22 @@ def run(ctx):
 
     # ---- 1. design, part 1: single lines. Which (class, file name) pairs break a clause in the SPEC?
     singles = [((c,), inst, fn) for c in classes for inst in (False, True) for fn in ("app", "other", "space")]
-    table1, attr = tlc_table(ctx, singles, "singles")
+    table1, attr = tlc_table(ctx, [((fn, inst, l),) for (l, inst, fn) in singles], "singles")
     n_spellings = check_spellings(attr, facts)
     bad_pairs = sorted({"%s/%s" % (l[0], fn) for (l, inst, fn), r in zip(singles, table1)
-                        if not all(r["clauses"].values())})
+                        if not all(r[0]["clauses"].values())})
     ctx.log("spec-level single-line counterexamples (class/fname): %s" % (bad_pairs or "none"))
 
     # ---- 2. design, part 2: exhaustive enumeration, the counterexample pairs removed (they are replayed on
     #         the real code below and reported from there)
-    def run_mc(cfg_name, workers, timeout, coverage=False, heap="6g"):
+    def run_mc(cfg_name, workers, timeout, coverage=False, heap="6g", module="DesktopSanitize"):
         with open(os.path.join(common.SPEC, cfg_name)) as f:
             cfg = f.read()
-        gen = os.path.join(ctx.subdir("cfg"), "DesktopSanitize_run.cfg")
+        gen = os.path.join(ctx.subdir("cfg"), module + "_run.cfg")
         with open(gen, "w") as f:
             f.write(cfg.replace("ExcludedPairs = {}",
                                 "ExcludedPairs = {%s}" % ", ".join('"%s"' % p for p in bad_pairs)))
-        r = tlc.run(ctx, "DesktopSanitize", "DesktopSanitize_run.cfg", extra_files=[gen], coverage=coverage,
+        r = tlc.run(ctx, module, module + "_run.cfg", extra_files=[gen], coverage=coverage,
                     workers=workers, timeout=timeout, heap=heap, name="tlc_" + cfg_name.replace(".cfg", ""))
         ctx.log("TLC %s: %s wall=%.1fs" % (cfg_name, r.summary(), r.wall))
         return r
@@ -689,6 +785,14 @@ def run(ctx):
         else:
             skipped_len4 = "MaxLen=4 skipped: estimated %.0fs on this (loaded) machine from the MaxLen=3 run" % est
             ctx.log(skipped_len4)
+    # the install step: one call sanitizes every shipped file, then writes them all
+    inst_mc = model if skip_design else run_mc(
+        ctx.pick("DesktopInstall_mc.cfg", "DesktopInstall_mc_thorough.cfg"), ctx.pick(8, 16), 1500,
+        coverage=ctx.quick, module="DesktopInstall")
+    if not inst_mc.ok:
+        raise InfraError("spec-level counterexample in DesktopInstall: %s %s" % (inst_mc.summary(), inst_mc.trace[-1:]))
+    if ctx.quick and not skip_design:
+        tlc.require_coverage(inst_mc, ["Ship", "StartCall", "SanitizeNext", "WriteAll"])
     for r in mcs:
         if not r.ok:
             counterexample(r)
@@ -698,8 +802,13 @@ def run(ctx):
     cases, n_single = build_cases(ctx, rng)
     for ls, spell, inst, fn in extra_cases:
         cases.append(Case("c%d" % len(cases), ls, spell, inst, fn, FNAMES[fn][0]))
-    akeys = sorted({c.akey() for c in cases})
-    ctx.log("%d concrete cases, %d abstract cases" % (len(cases), len(akeys)))
+    groups = [[c] for c in cases]                       # one shipped file per install call
+    multi = build_groups(ctx, rng, [len(cases)])        # several shipped files per install call
+    groups += multi
+    n_files = sum(len(g) for g in groups)
+    akeys = sorted({gkey(g) for g in groups})
+    ctx.log("%d install calls (%d with several files), %d shipped files, %d abstract calls" % (
+        len(groups), len(multi), n_files, len(akeys)))
     table, _ = tlc_table(ctx, akeys, "cases", shards=ctx.pick(1, 6))
     results = dict(zip(akeys, table))
     ctx.log("TLC table done")
@@ -710,9 +819,9 @@ def run(ctx):
     shutil.copy(tb, tb2)
     tb = tb2
     ctx.log("driver built")
-    rows = run_driver(ctx, tb, cases, facts, root, "all")
+    rows = run_driver(ctx, tb, groups, facts, root, "all")
     ctx.log("driver done")
-    viol, deviations, stats = judge(cases, rows, results, facts)
+    viol, deviations, stats = judge(groups, rows, results, facts)
     ctx.log("judged")
 
     violations = []
@@ -744,12 +853,19 @@ def run(ctx):
         name = installed_name(cs, facts)
         samples.append({"input": cs.describe(),
                         "installed": repr(base64.b64decode(row["files"].get(name, ""))[:400])})
+    for g, row in list(zip(groups, rows))[len(cases):len(cases) + 2]:
+        samples.append({"shipped_in_one_call": [cs.describe() for cs in g],
+                        "installed": {k: repr(base64.b64decode(v)[:200]) for k, v in row["files"].items()}})
     cov = {
         "states": mc.distinct, "transitions": mc.generated, "tlc_wall_s": round(mc.wall, 1),
         "tlc_constants": {"MaxLen": maxlen, "classes": len(classes), "ExcludedPairs": bad_pairs},
         "tlc_runs": [{"states": r.distinct, "transitions": r.generated, "wall_s": round(r.wall, 1)} for r in mcs],
-        "traces_validated_against_impl": len(cases),
-        "real_executions": len(cases),
+        "traces_validated_against_impl": len(groups),
+        "real_executions": len(groups),
+        "install_calls_with_several_files": len(multi),
+        "installed_files_judged": n_files,
+        "install_step_model": {"states": inst_mc.distinct, "transitions": inst_mc.generated,
+                               "wall_s": round(inst_mc.wall, 1)},
         "abstract_cases_tabulated_by_tlc": len(akeys),
         "spellings_checked_against_class_attributes": n_spellings,
         "distinct_real_outputs": len(stats["outputs"]),
@@ -760,7 +876,8 @@ def run(ctx):
         "deviations_from_spec": len(deviations),
         "samples": samples,
         "invariants": ["InvOnlyAllowlisted", "InvExecIsOwnWrapper", "InvIconInsideSnap", "InvTagged",
-                       "InvNoInvention", "InvLoopIsSanitize"],
+                       "InvNoInvention", "InvLoopIsSanitize", "DesktopInstall!InvPendingStable",
+                       "DesktopInstall!InvInstallIsFunctionOfFile", "DesktopInstall!InvInstalled*"],
     }
     cov["action_coverage"] = tlc.coverage_summary(model)
     if skip_design:
